@@ -220,20 +220,6 @@ def n_diveq_regex_after_backtrack_token(ref, src):
     return n
 
 
-def n_asi_comment_newline(ref, src):
-    """ASI point whose separating layout has a comment after / around the line break"""
-    n = 0
-    for s in ref.semis:
-        if s['kind'] == 'inserted' and s.get('by') == 'newline':
-            # gap index == index of the offending token
-            idx = _tok_index_at(ref, s['pos'])
-            if idx is not None and has_comment(src.gaps[idx]):
-                src.gaps[idx] = '\n'
-                n += 1
-    # restricted productions: keyword + comment containing/after LT
-    return n
-
-
 def n_asi_before_prefix_incdec(ref, src):
     """semicolon inserted (by a line break) before a prefix ++/--"""
     n = 0
@@ -284,7 +270,6 @@ NEUTRALISERS = [
     ('c05.header_paren_markers', n_header_markers),
     ('c05.regex_after_funcdecl', n_regex_after_funcdecl),
     ('c05.diveq_regex_after_brace_or_incdec', n_diveq_regex_after_backtrack_token),
-    ('c04.asi_comment_newline', n_asi_comment_newline),
     ('c04.asi_before_prefix_incdec', n_asi_before_prefix_incdec),
     ('c04.asi_before_regex', n_asi_before_regex),
     ('c03.ident_unicode_escape', n_ident_escape),
@@ -347,18 +332,6 @@ def over_acceptance_signature(text, failure, info):
             if type(n).__name__ == 'PostfixExpr' and n.lexpos in incdec:
                 return 'c04.asi_before_prefix_incdec'
     part = info.get('ref_partial_tokens', ())
-    # restricted keyword + comment that contains / is followed by a line terminator: the comment hides
-    # the line break from the restricted-production check, the operand is not split off
-    for i in range(len(part) - 1):
-        a, b = part[i], part[i + 1]
-        if a.type == 'keyword' and a.text in RESTRICTED_KW and b.nl_before and has_comment(text[a.end:b.start]) \
-                and not (i and part[i - 1].type == 'punct' and part[i - 1].text == '.'):
-            return 'c04.asi_comment_newline'
-    # `throw` + comment + line terminator: the comment hides the restricted keyword
-    if msg == 'line terminator after throw' and part:
-        last = part[-1]
-        if len(part) >= 2 and has_comment(text[part[-2].end:last.start]):
-            return 'c04.asi_comment_newline'
     # expression statement starting with a function expression
     for n in nodes:
         if type(n).__name__ == 'ExprStatement':
